@@ -244,6 +244,9 @@ func faninRun(in []byte) (interface{}, error) {
 			hang = true // fewer full synchronisations under way than the semaphore admits and nothing arrives: the rest is stuck
 			break
 		}
+		if len(h2) == 0 {
+			continue // the last pending sources continued from their checkpoints meanwhile: nothing is waiting at a gate
+		}
 		var pick int
 		switch cfg.Policy {
 		case "high":
@@ -286,7 +289,27 @@ func faninRun(in []byte) (interface{}, error) {
 			}
 			time.Sleep(10 * time.Millisecond)
 		}
-		time.Sleep(1500 * time.Millisecond)
+		// then until every source's list is complete in the target (the senders flush on a 500 ms tick; a loaded machine may be late) or
+		// 12 s are over, plus a short quiet period
+		for t0 := time.Now(); time.Since(t0) < 12*time.Second; time.Sleep(50 * time.Millisecond) {
+			done := true
+			snapNow := tgt.Snapshot()
+			for i := range srcs {
+				n := 0
+				for _, m := range snapNow {
+					if e, ok := m[fmt.Sprintf("s%d:list", i)]; ok {
+						n += len(e.Val.List)
+					}
+				}
+				if n < cfg.Commands {
+					done = false
+				}
+			}
+			if done {
+				break
+			}
+		}
+		time.Sleep(700 * time.Millisecond)
 	}
 	late := aborted()
 	// --- what the target holds, per source
